@@ -19,5 +19,6 @@ def pristine : Cell → String
     | some (q, _) => (Gen.Config.defaults.lookup (q ++ rel)).getD "<absent>"
     | none => "<absent>"
   | (.user _ _, _) => "<absent>"
+  | (.value _, _) => "<absent>"
 
 end Opcua.CfgAlias
